@@ -19,6 +19,7 @@ package state
 import (
 	"github.com/youchainhq/go-youchain/common"
 	"math/big"
+	"sync/atomic"
 )
 
 // journalEntry is a modification entry in the state change journal that can be
@@ -168,6 +169,7 @@ func (ch validatorCreateChange) revert(s *StateDB) {
 	s.decrValidatorsStat(val.(*Validator))
 	s.validatorObjects.Delete(*ch.address)
 	s.validatorIndex.Delete(*ch.address)
+	s.validatorsSorted = atomic.Value{}
 }
 
 func (ch validatorCreateChange) dirtied() *common.Address {
